@@ -287,7 +287,12 @@ Definition snapshot_material_msgs (pr : peer_state) : list msg :=
 
 Definition build_full_sync (pr : peer_state) : peer_state * list msg :=
   let es := ents_list pr in
-  let m1 := concat ((fun '(e, en) => snapshot_entity_msgs pr e en) <$> es) in
+  (* check_entity_components works archetype by archetype: the spawns of an archetype, then its
+     component values. The model has no archetypes: all spawns, then all values. The two orders
+     differ only in messages about different entities, except for a SkinnedMesh whose joints live in
+     an archetype created later than its own (suspected defect S13; not generated). *)
+  let m1 := concat ((fun '(e, en) => firstn 1 (snapshot_entity_msgs pr e en)) <$> es) ++
+            concat ((fun '(e, en) => skipn 1 (snapshot_entity_msgs pr e en)) <$> es) in
   let m2 := concat ((fun '(e, en) => snapshot_parent_msgs pr e en) <$> es) in
   let '(pr, mi) := serve_all pr AImage in
   let mm := snapshot_material_msgs pr in
